@@ -66,9 +66,9 @@ def macro_clauses(name, args):
           ("%s.pos >= %s.pos" % (q, p), "[C03] the cursor never moves backwards"),
           ("%s.nlen() >= %s.nlen()" % (q, p), "[C01,C08] nothing is removed from the tree")]
     if name == "STEP":
-        cl.append(("(forall|k: int| #[trigger] %s.mk(k) ==> %s.mk(k))" % (p, q), "[C01,C02] sibling boundaries stay valid"))
+        cl.append(("(forall|k: int| #![trigger %s.mk(k)] #![trigger %s.mk(k)] %s.mk(k) ==> %s.mk(k))" % (p, q, p, q), "[C01,C02] sibling boundaries stay valid"))
     else:
-        cl.append(("(forall|k: int| #[trigger] %s.mk(k) && k <= %s ==> %s.mk(k))" % (p, args[2], q), "[C01,C02] sibling boundaries stay valid"))
+        cl.append(("(forall|k: int| #![trigger %s.mk(k)] #![trigger %s.mk(k)] %s.mk(k) && k <= %s ==> %s.mk(k))" % (p, q, p, args[2], q), "[C01,C02] sibling boundaries stay valid"))
     cl.append(("%s.dpre(%s)" % (q, p), "[C06,C08] diagnostics already reported stay as they are"))
     if name == "STEP":
         cl.append(("%s.rstack() == %s.rstack()" % (q, p), "[C02] every node opened is closed again"))
